@@ -78,7 +78,7 @@ def run_connect(chmax, flags, rxp, script, dflt, high_level=False, link_hook=Non
         res["intf2"] = int(link.started - link.stopped > 0)
         res["live"] = [t.name for t in sim.live_tasks()]
 
-    r, sim = vsim.run_sim(scenario, time_limit=time_limit)
+    r, sim = vsim.run_sim(scenario, time_limit=time_limit, real_limit=20.0)
     res["errors"] = [(n, repr(e)) for n, e, _ in sim.errors]
     if isinstance(r, BaseException):
         res["exc"] = f"{type(r).__name__}: {r}"
